@@ -140,6 +140,50 @@ def _has_quant_uncached(t) -> bool:
 
 MAX_TERMS_PER_SORT = 24
 
+_UF = {}
+
+
+def _uf(name, *sorts):
+    key = (name,) + tuple(str(x) for x in sorts)
+    if key not in _UF:
+        _UF[key] = z3.Function(name, *sorts)
+    return _UF[key]
+
+
+def abstract_strings(fs: List[z3.ExprRef]) -> List[z3.ExprRef]:
+    """replace string *operations* (concat, int->str, length, ...) by uninterpreted functions (congruence is
+    kept, their theory is forgotten): a weakening, so `unsat` remains a proof; it keeps the quantifier-free
+    stage-2 queries out of z3's sequence solver, which times out on them."""
+    cache = {}
+    seq_ops = {z3.Z3_OP_SEQ_CONCAT: "uf_concat", z3.Z3_OP_INT_TO_STR: "uf_itos", z3.Z3_OP_SEQ_LENGTH: "uf_len", z3.Z3_OP_STR_TO_INT: "uf_stoi",
+               z3.Z3_OP_SEQ_PREFIX: "uf_prefix", z3.Z3_OP_SEQ_SUFFIX: "uf_suffix", z3.Z3_OP_SEQ_CONTAINS: "uf_contains"}
+
+    def go(t):
+        i = t.get_id()
+        if i in cache:
+            return cache[i]
+        if not z3.is_app(t) or t.num_args() == 0:
+            r = t
+        else:
+            ch = [go(c) for c in t.children()]
+            k = t.decl().kind()
+            if k in seq_ops:
+                if k == z3.Z3_OP_SEQ_CONCAT and len(ch) > 2:
+                    r = ch[0]
+                    for c in ch[1:]:
+                        r = _uf("uf_concat", r.sort(), c.sort(), t.sort())(r, c)
+                else:
+                    r = _uf(seq_ops[k], *([c.sort() for c in ch] + [t.sort()]))(*ch)
+            else:
+                try:
+                    r = t.decl()(*ch)
+                except z3.Z3Exception:
+                    r = t
+        cache[i] = r
+        return r
+
+    return [go(f) for f in fs]
+
 
 def prepare(hyps: List[z3.ExprRef], goal: z3.ExprRef) -> Tuple[List[z3.ExprRef], dict]:
     """returns quantifier-free assertions whose unsatisfiability proves hyps |= goal"""
@@ -175,10 +219,10 @@ def prepare(hyps: List[z3.ExprRef], goal: z3.ExprRef) -> Tuple[List[z3.ExprRef],
 
 
 NATIVE_MS = 4000
-QI_MAX = int(os.environ.get("VERIF_QI_MAX", "20000"))
+QI_MAX = int(os.environ.get("VERIF_QI_MAX", "8000"))
 
 
-def check(hyps: List[z3.ExprRef], goal: z3.ExprRef, timeout_ms: int = 10000):
+def check(hyps: List[z3.ExprRef], goal: z3.ExprRef, timeout_ms: int = 10000, allow_stage2: bool = True, skip_stage1: bool = False):
     """-> (verdict, model_or_None, stats)   verdict in {'unsat','sat','unknown'}
 
     1. z3 with E-matching only and a bound on the number of instances: `unsat` is a proof; anything
@@ -188,21 +232,26 @@ def check(hyps: List[z3.ExprRef], goal: z3.ExprRef, timeout_ms: int = 10000):
        the model is reported; `unknown` stays undecided."""
     t0 = time.time()
     stats = {"backend": "z3-ematching"}
-    s = z3.Solver()
-    s.set("timeout", min(timeout_ms, NATIVE_MS))
-    s.set("smt.mbqi", False)
-    s.set("smt.qi.max_instances", QI_MAX)
-    for h in hyps:
-        s.add(h)
-    s.add(z3.Not(goal))
-    r = s.check()
-    stats["ms"] = int((time.time() - t0) * 1000)
-    if r == z3.unsat:
-        return "unsat", None, stats
-    if r == z3.sat:
-        return "sat", s.model(), stats
-    stats["native_reason"] = s.reason_unknown()
+    if not skip_stage1:
+        s = z3.Solver()
+        s.set("timeout", min(timeout_ms, NATIVE_MS))
+        s.set("smt.mbqi", False)
+        s.set("smt.qi.max_instances", QI_MAX)
+        for h in hyps:
+            s.add(h)
+        s.add(z3.Not(goal))
+        r = s.check()
+        stats["ms"] = int((time.time() - t0) * 1000)
+        if r == z3.unsat:
+            return "unsat", None, stats
+        if r == z3.sat:
+            return "sat", s.model(), stats
+        stats["native_reason"] = s.reason_unknown()
+    if not allow_stage2:
+        stats["reason"] = "not proved by bounded E-matching; stage-2 budget of this unit exhausted"
+        return "unknown", None, stats
     fs, st2 = prepare(hyps, goal)
+    fs = abstract_strings(fs)
     stats.update(st2)
     stats["backend"] = "z3-manual-instantiation"
     s = z3.Solver()
